@@ -179,6 +179,8 @@ class PE:
         self.trace_calls: list[str] = []
         self.steps = 0
         self.max_steps = 20_000_000
+        self.call_stack: list[str] = []
+        self.site_hook = None  # callable(kind, call_node, env, args) for domain-sensitive library calls
         from . import pe_models
 
         pe_models.install(self)
@@ -1100,11 +1102,18 @@ class PE:
                 return self.eval(node.body, env)
             if len(self.trace_calls) < 5000:
                 self.trace_calls.append(c.name)
+            is_gen = _is_generator(node)
+            if is_gen:
+                # generators are run eagerly; the yielded values are returned as a list
+                env.vars["__yielded__"] = []
+            self.call_stack.append(c.name)
             try:
                 self.exec_block(node.body, env)
             except _Return as r:
-                return r.value
-            return None
+                return env.vars["__yielded__"] if is_gen else r.value
+            finally:
+                self.call_stack.pop()
+            return env.vars["__yielded__"] if is_gen else None
         finally:
             self.depth -= 1
 
@@ -1223,7 +1232,10 @@ class PE:
     def x_Expr(self, st, env):
         if isinstance(st.value, ast.Constant):
             return
-        if isinstance(st.value, (ast.Yield, ast.YieldFrom)):
+        if isinstance(st.value, ast.YieldFrom):
+            self.e_YieldFrom(st.value, env)
+            return
+        if isinstance(st.value, ast.Yield):
             self.e_Yield(st.value, env)
             return
         self.eval(st.value, env)
@@ -1234,6 +1246,14 @@ class PE:
             acc = []
             env.vars["__yielded__"] = acc
         acc.append(self.eval(n.value, env) if n.value is not None else None)
+        return None
+
+    def e_YieldFrom(self, n, env):
+        ok, acc = env.lookup("__yielded__")
+        if not ok:
+            acc = []
+            env.vars["__yielded__"] = acc
+        acc.extend(self.iterate(self.eval(n.value, env)))
         return None
 
     def x_Pass(self, st, env):
@@ -1553,6 +1573,27 @@ class _Iter:
         r = self.items[self.pos:]
         self.pos = len(self.items)
         return r
+
+
+_GEN_CACHE: dict = {}
+
+
+def _is_generator(node):
+    k = id(node)
+    r = _GEN_CACHE.get(k)
+    if r is None:
+        r = False
+        stack = list(getattr(node, "body", []))
+        while stack:
+            n = stack.pop()
+            if isinstance(n, (ast.Yield, ast.YieldFrom)):
+                r = True
+                break
+            for ch in ast.iter_child_nodes(n):
+                if not isinstance(ch, (ast.FunctionDef, ast.AsyncFunctionDef, ast.Lambda, ast.ClassDef)):
+                    stack.append(ch)
+        _GEN_CACHE[k] = r
+    return r
 
 
 def _load(t):
